@@ -28,10 +28,10 @@ table's `ncols` columns — which **every tree `build` produces satisfies** (`bu
 gives a table as many columns as its widest row; `insert_child`, `colspan=0` repair and rank remapping preserve it);
 the driver also evaluates `tableOk` on every built tree).  Together with "the selector matcher never panics, so
 `build` never fails", this gives the **end-to-end statement on the model**, `pipeline_total`: for every DOM rooted at a
-document node, every configuration, decorator, width and agent/user/document CSS, the outcome is lines, `TooNarrow`, a
-CSS parse error, or the CSS parser running out of fuel — never a panic, never a hang of the renderer.  What remains
-outside: the CSS parser's fuel (its `hang` outcome is not yet proved unreachable; correspondence covers it), html5ever,
-and stack/allocation/time (see above). -/
+document node, every configuration, decorator, width and agent/user/document CSS, the outcome is lines, `TooNarrow` or a
+CSS parse error — never a panic, never a hang.  The CSS parser is part of it: every token consumes input
+(`Css.parseToken_lt`), so the at-rule skipper's fuel is never exhausted and `add_css` never hangs (`add_css_never_hangs`).
+What remains outside: html5ever, and stack/allocation/time (see above). -/
 
 namespace H2T.C01
 
@@ -193,14 +193,19 @@ theorem build_trees_renderable (bc : BuildCfg) (n : Node) (up : List Css.Frame) 
 theorem build_never_fails (bc : BuildCfg) (n : Node) (up : List Css.Frame) (idx : Nat) : ∃ r, build bc up idx n = some r :=
   build_some bc n up idx
 
-/-- **C01 on the whole model pipeline** (DOM → style → render tree → lines) -/
+/-- **adding CSS never hangs**: for every string, `add_css` returns rules or a parse error (before fix ca75076 a lone `#`
+    was a token that consumed nothing and the at-rule skipper looped on it) -/
+theorem add_css_never_hangs (css : Css.Inp) : (∃ rs, Css.doAddCss css = .ok rs) ∨ Css.doAddCss css = .err :=
+  Css.doAddCss_no_hang css
+
+/-- **C01 on the whole model pipeline** (CSS → DOM → style → render tree → lines) -/
 theorem pipeline_total (cfg : Cfg) (d : Deco) (w : Nat) (useDoc : Bool) (agentCss userCss : Option (List Char))
     (ci : CharInfo) (depth : Nat) (kids : List Node) :
     match renderDom cfg d w useDoc agentCss userCss ci depth (.doc kids) with
     | .lines _ => True
     | .narrow => True
     | .cssErr => True
-    | .hang s => s = "css parser" ∨ s = "css parser (document)"
+    | .hang _ => False
     | .panic _ => False := by
   have := renderDom_acceptable cfg d w useDoc agentCss userCss ci depth kids
   cases h : renderDom cfg d w useDoc agentCss userCss ci depth (.doc kids) <;> rw [h] at this <;> exact this
